@@ -63,7 +63,7 @@ def z3_to_py(v):
     return str(v)
 
 
-def discharge(ob, timeout_ms, use_cvc5=True):
+def discharge(ob, timeout_ms, use_cvc5=True, want_candidate=True):
     """-> dict(status=proved|refuted|unknown, backend, seconds, model?)"""
     t0 = time.time()
     g = ob.goal
@@ -95,7 +95,67 @@ def discharge(ob, timeout_ms, use_cvc5=True):
             return {"status": "proved", "backend": "cvc5", "seconds": dt}
         if r2 == "sat":
             return {"status": "refuted", "backend": "cvc5", "seconds": dt, "model": None}
-    return {"status": "unknown", "backend": "z3+cvc5", "seconds": dt, "reason": reason}
+    if not want_candidate:
+        return {"status": "unknown", "backend": "z3", "seconds": time.time() - t0, "reason": reason}
+    # candidate counter-model: drop the quantified hypotheses (weaker theory, so the model may be
+    # spurious); it only serves as a *replay candidate* -- the real code decides.
+    cand = None
+    try:
+        from pyvc.state import has_quantifier, conjuncts
+        s2 = z3.Solver()
+        s2.set("timeout", min(timeout_ms, 10000))
+        for c in ob.pc:
+            for cc in conjuncts(c):
+                if not has_quantifier(cc):
+                    s2.add(cc)
+        for c in bytes_axioms():
+            s2.add(c)
+        ng = z3.Not(g)
+        if not has_quantifier(ng):
+            s2.add(ng)
+        else:
+            # negated universally quantified goal: instantiate the bound variables by fresh constants
+            s2.add(skolemize_neg(g))
+        for t in ground_blen_terms(s2.assertions()):
+            s2.add(t >= 0)
+        if s2.check() == z3.sat:
+            cand = s2.model()
+    except Exception:
+        cand = None
+    return {"status": "unknown", "backend": "z3+cvc5", "seconds": time.time() - t0, "reason": reason, "candidate": cand}
+
+
+def ground_blen_terms(fs):
+    out, seen, stack = [], set(), list(fs)
+    while stack:
+        e = stack.pop()
+        if e.get_id() in seen:
+            continue
+        seen.add(e.get_id())
+        if z3.is_quantifier(e):
+            continue
+        if z3.is_app(e) and e.decl().name() == "blen":
+            out.append(e)
+        stack.extend(e.children())
+    return out
+
+
+def skolemize_neg(g):
+    """not(forall x. body) -> not body[x := fresh]  (top-level universal goals only)"""
+    if z3.is_quantifier(g) and g.is_forall():
+        vs = [z3.Const(f"sk!{g.var_name(i)}", g.var_sort(i)) for i in range(g.num_vars())]
+        body = z3.substitute_vars(g.body(), *reversed(vs))
+        return skolemize_neg(body)
+    if z3.is_and(g):
+        return z3.Or(*[skolemize_neg(c) for c in g.children()])
+    if z3.is_implies(g):
+        return z3.And(g.arg(0), skolemize_neg(g.arg(1))) if not has_q(g.arg(0)) else z3.BoolVal(True)
+    return z3.Not(g) if not has_q(g) else z3.BoolVal(True)
+
+
+def has_q(e):
+    from pyvc.state import has_quantifier
+    return has_quantifier(e)
 
 
 def cvc5_check(solver, timeout_ms):
@@ -122,8 +182,39 @@ def cvc5_check(solver, timeout_ms):
         os.unlink(p)
 
 
+_OBLS = []      # obligations of the unit being discharged (inherited by forked workers)
+_TIMEOUT = 20000
+
+
+def _discharge_idx(i):
+    ob = _OBLS[i]
+    if ob.info.get("kind") == "cover":
+        d = discharge(ob, 2000, use_cvc5=False, want_candidate=False)
+        return {"i": i, "label": ob.label, "status": d["status"], "backend": d["backend"], "seconds": d["seconds"], "kind": "cover"}
+    d = discharge(ob, _TIMEOUT)
+    out = {"i": i, "label": ob.label, "status": d["status"], "backend": d["backend"], "seconds": d["seconds"],
+           "kind": ob.info.get("kind", "post")}
+    if d["status"] != "proved":
+        fail = {"status": d["status"], "case": _js(ob.info.get("case")), "branches": ob.info.get("branches"),
+                "goal": str(ob.goal)[:2000], "reason": d.get("reason"), "backend": d["backend"]}
+        wf = ob.info.get("witness")
+        model = d.get("model") if d["status"] == "refuted" else d.get("candidate")
+        if model is not None:
+            fail["model"] = str(model)[:3000]
+            if d["status"] == "unknown":
+                fail["candidate_only"] = True
+        if wf is not None:
+            try:
+                fail["witness"] = wf(ModelEval(model)) if model is not None else (wf(lambda x, default=None: default) if d["status"] == "refuted" else None)
+            except Exception as e:
+                fail["witness_error"] = repr(e)
+        out["fail"] = fail
+    return out
+
+
 def run_unit(args):
-    modpath, idx, tier = args
+    global _OBLS, _TIMEOUT
+    modpath, idx, tier, jobs = args
     t0 = time.time()
     res = {"unit": None, "functions": [], "paths": 0, "obligations": {}, "covers": {}, "error": None,
            "ungenerable": None, "inlined": [], "trusted": [], "solver_s": 0.0, "vcs": 0}
@@ -136,7 +227,7 @@ def run_unit(args):
         res["functions"] = list(unit.functions)
         res["kind"] = unit.kind
         I = S.new_interp(P)
-        timeout = 20000 if tier == "quick" else 120000
+        _TIMEOUT = 10000 if tier == "quick" else 60000
         obls = res["obligations"]
 
         def run(st):
@@ -147,42 +238,50 @@ def run_unit(args):
             unit.body(v)
             return v
 
+        all_obls = []
         for st, out in explore(run):
             res["paths"] += 1
             res["trusted"] = sorted(set(res["trusted"]) | st.trusted_used)
-            for ob in st.obls:
-                res["vcs"] += 1
-                d = discharge(ob, timeout)
-                res["solver_s"] += d["seconds"]
-                o = obls.setdefault(ob.label, {"vcs": 0, "proved": 0, "backends": {}, "failures": [], "kind": ob.info.get("kind", "post")})
-                o["vcs"] += 1
-                o["backends"][d["backend"]] = o["backends"].get(d["backend"], 0) + 1
+            all_obls.extend(st.obls)
+        res["explore_s"] = time.time() - t0
+        _OBLS = all_obls
+        res["vcs"] = len(all_obls)
+        trivial, hard = [], []
+        seen_cov = set()
+        for i, ob in enumerate(all_obls):
+            if ob.info.get("kind") == "cover":
+                ck = (ob.label, repr(ob.info.get("case")))
+                if ck in seen_cov:
+                    continue
+                seen_cov.add(ck)
+            (trivial if z3.is_true(ob.goal) else hard).append(i)
+        results = [_discharge_idx(i) for i in trivial]
+        if hard:
+            if jobs > 1 and len(hard) > 1:
+                import multiprocessing as mp
+                ctx = mp.get_context("fork")
+                with ctx.Pool(min(jobs, len(hard))) as pool:
+                    results += pool.map(_discharge_idx, hard, chunksize=1)
+            else:
+                results += [_discharge_idx(i) for i in hard]
+        for d in results:
+            res["solver_s"] += d["seconds"]
+            if d["kind"] == "cover":
+                c = res.setdefault("cover_vcs", {"n": 0, "vacuous": 0})
+                c["n"] += 1
                 if d["status"] == "proved":
-                    o["proved"] += 1
-                else:
-                    fail = {"status": d["status"], "case": _js(ob.info.get("case")), "branches": ob.info.get("branches"),
-                            "goal": str(ob.goal)[:2000], "reason": d.get("reason"), "backend": d["backend"]}
-                    if d["status"] == "refuted" and d.get("model") is not None:
-                        ev = ModelEval(d["model"])
-                        wf = ob.info.get("witness")
-                        if wf is not None:
-                            try:
-                                fail["witness"] = wf(ev)
-                            except Exception as e:
-                                fail["witness_error"] = repr(e)
-                        fail["model"] = str(d["model"])[:3000]
-                    elif d["status"] == "refuted":
-                        wf = ob.info.get("witness")
-                        if wf is not None:
-                            try:
-                                fail["witness"] = wf(lambda x, default=None: default)
-                            except Exception as e:
-                                fail["witness_error"] = repr(e)
-                    if len(o["failures"]) < 5:
-                        o["failures"].append(fail)
-                    else:
-                        o.setdefault("more_failures", 0)
-                        o["more_failures"] += 1
+                    c["vacuous"] += 1
+                    res["error"] = f"vacuous: assumptions of {d['label']} are contradictory"
+                continue
+            o = obls.setdefault(d["label"], {"vcs": 0, "proved": 0, "backends": {}, "failures": [], "kind": d["kind"]})
+            o["vcs"] += 1
+            o["backends"][d["backend"]] = o["backends"].get(d["backend"], 0) + 1
+            if d["status"] == "proved":
+                o["proved"] += 1
+            elif len(o["failures"]) < 6:
+                o["failures"].append(d["fail"])
+            else:
+                o["more_failures"] = o.get("more_failures", 0) + 1
         res["covers"] = {k: v for k, v in unit.covers.items()}
         res["inlined"] = sorted(I.inlined)
     except Unsupported as e:
@@ -244,6 +343,29 @@ def replay(P, pid, label, fail, outdir):
     return reproduced, path, out
 
 
+def witness_search(pid, label, fail, outdir, seed, tier):
+    """bounded search for a failing input on the real code (replay/<pid>.py --search); a replay aid only"""
+    script = os.path.join(VERIF, "replay", f"{pid}.py")
+    if not os.path.exists(script) or "--search" not in open(script).read():
+        return None
+    os.makedirs(outdir, exist_ok=True)
+    h = hashlib.sha256(label.encode()).hexdigest()[:10]
+    path = os.path.join(outdir, f"search_{label.replace('/', '_').replace(':', '.')}_{h}.json")
+    try:
+        r = subprocess.run(["/venv/bin/python", script, "--search", label, path, str(seed), tier], capture_output=True, text=True,
+                           timeout=600, cwd=VERIF, env={**os.environ, "PYTHONPATH": REPO})
+    except Exception:
+        return None
+    if r.returncode == 0 and "REPRODUCED" in r.stdout and os.path.exists(path):
+        doc = json.load(open(path))
+        doc.update({"property": pid, "obligation": label, "solver_status": fail.get("status"), "goal": fail.get("goal"),
+                    "found_by": "witness search on the real code", "reproduced_on_real_code": True,
+                    "replay_output": r.stdout[-2000:]})
+        json.dump(doc, open(path, "w"), indent=1, default=str)
+        return {"path": path, "signature": (doc.get("witness") or {}).get("signature")}
+    return None
+
+
 def main(argv=None):
     ap = argparse.ArgumentParser()
     ap.add_argument("pid")
@@ -268,18 +390,13 @@ def main(argv=None):
     m = load_module(modpath)
     P = m.P
     idxs = [i for i, u in enumerate(P.units) if not a.unit or a.unit in u.name]
-    tasks = [(modpath, i, a.tier) for i in idxs]
-    results = []
-    if a.jobs > 1 and len(tasks) > 1:
-        with cf.ProcessPoolExecutor(max_workers=min(a.jobs, len(tasks))) as ex:
-            results = list(ex.map(run_unit, tasks))
-    else:
-        results = [run_unit(t) for t in tasks]
+    tasks = [(modpath, i, a.tier, a.jobs) for i in idxs]
+    results = [run_unit(t) for t in tasks]
 
     known = load_known()
     lock = load_lock().get(pid)
     violations, undecided, errors, known_seen = [], [], [], []
-    pending_v = {}
+    failing = {}
     n_obl = n_dis = n_vcs = 0
     by_backend = {}
     solver_s = 0.0
@@ -315,25 +432,47 @@ def main(argv=None):
                 if len(samples) < 6:
                     samples.append({"obligation": f"{pid}/{label}", "kind": o["kind"], "vcs": o["vcs"], "backends": o["backends"]})
                 continue
-            for fail in o["failures"]:
-                if fail["status"] == "unknown":
-                    undecided.append((label, f"solver unknown ({fail.get('reason')})"))
-                    continue
-                sig = (fail.get("witness") or {}).get("signature") if isinstance(fail.get("witness"), dict) else None
+            failing[label] = o["failures"]
+    # ---- triage of failed obligations: replay (counter-model / candidate), witness search, lock history
+    for label, fails in failing.items():
+        decided = False
+        best = None
+        for fail in fails:
+            if fail.get("witness") is None:
+                continue
+            sig = fail["witness"].get("signature") if isinstance(fail["witness"], dict) else None
+            rep, path, out = replay(P, pid, label, fail, os.path.join(VERIF, "replays", pid))
+            if rep:
                 kf = [k for k in known["findings"] if k["property"] == pid and k["obligation"] == label and k.get("signature") == sig]
                 if kf:
                     known_seen.append((label, kf[0]))
-                    continue
-                pending_v.setdefault(label, []).append(fail)
-    for label, fails in pending_v.items():
-        best = None
-        for fail in fails:
-            rep, path, out = replay(P, pid, label, fail, os.path.join(VERIF, "replays", pid))
-            if best is None or (rep and not best[2]):
-                best = (label, path, rep, fail)
-            if rep:
+                else:
+                    violations.append((label, path, True, fail))
+                decided = True
                 break
-        violations.append(best)
+            if best is None and fail["status"] == "refuted":
+                best = (label, path, False, fail)
+        if decided:
+            continue
+        # witness search on the real code (bounded; a replay aid only)
+        found = witness_search(pid, label, fails[0], os.path.join(VERIF, "replays", pid), seed, a.tier)
+        if found is not None:
+            sig = found.get("signature")
+            kf = [k for k in known["findings"] if k["property"] == pid and k.get("signature") == sig and k["obligation"] in (label, "*")]
+            if kf:
+                known_seen.append((label, kf[0]))
+            else:
+                violations.append((label, found["path"], True, fails[0]))
+            continue
+        in_lock = lock is not None and label in lock
+        if best is not None or in_lock:
+            # refuted by the solver (model did not replay), or an obligation that was discharged on the accepted
+            # tree and no longer is: reported, with the solver output, as no-failing-input-found
+            fail = (best[3] if best else fails[0])
+            rep, path, out = replay(P, pid, label, {**fail, "witness": None}, os.path.join(VERIF, "replays", pid))
+            violations.append((label, path, False, fail))
+        else:
+            undecided.append((label, f"solver {fails[0]['status']} ({fails[0].get('reason')}), obligation not in lock"))
     if lock is not None and not a.unit:
         missing = sorted(set(lock) - all_labels)
         for l in missing:
